@@ -239,14 +239,17 @@ static std::string do_init(const std::vector<std::string> &t) {
 static std::string num(double x) { char b[64]; std::snprintf(b, sizeof b, "%.9g", x); return b; }
 static bool fin(float x) { return std::isfinite(x); }
 
-// range <dev> <api> <seed> <req>: every element in the support named by the property
+// range <dev> <api> <seed> <req>: every element in the support named by the property.
+// A FAIL line ends with the census of the breaches: `counts inf=<+inf> zero=<+0> negative=<x < 0, -0, -inf>
+// nan=<NaN> other=<any other element outside the support> total=<elements>` (engines/c17.py decides from it
+// whether the breach is the known float-range finding of log_normal or an ordinary violation).
 static std::string do_range(const std::vector<std::string> &t) {
   auto dev = mkdev(t.at(1), u32(t.at(3)));
   Req r = parse_req(t.at(4));
   std::vector<float> v;
   try { v = do_req(*dev, t.at(2).at(0), r); } catch (Error &) { return "rej"; }
-  if (v.size() != r.n) return "FAIL size";
-  size_t bad = 0, first = 0; size_t n1 = 0, nup = 0;
+  if (v.size() != r.n) return "FAIL size " + std::to_string(v.size()) + " instead of " + std::to_string(r.n);
+  size_t bad = 0, first = 0; size_t n1 = 0, nup = 0; size_t cinf = 0, czero = 0, cneg = 0, cnan = 0, cother = 0;
   for (size_t i = 0; i < v.size(); ++i) {
     bool ok = true; float x = v[i];
     switch (r.kind) {
@@ -255,9 +258,13 @@ static std::string do_range(const std::vector<std::string> &t) {
       case 'n': ok = fin(x); break;
       case 'l': ok = fin(x) && x > 0.f; break;
     }
-    if (!ok && !bad++) first = i;
+    if (!ok) {
+      if (!bad++) first = i;
+      if (x != x) ++cnan; else if (std::signbit(x)) ++cneg; else if (x == 0.f) ++czero; else if (std::isinf(x)) ++cinf; else ++cother;
+    }
   }
-  if (bad) return "FAIL " + std::to_string(bad) + " of " + std::to_string(v.size()) + " elements outside the support, first index " + std::to_string(first) + " value-bits " + bstr(v[first]);
+  if (bad) return "FAIL " + std::to_string(bad) + " of " + std::to_string(v.size()) + " elements outside the support, first index " + std::to_string(first) + " value-bits " + bstr(v[first]) +
+                  " counts inf=" + std::to_string(cinf) + " zero=" + std::to_string(czero) + " negative=" + std::to_string(cneg) + " nan=" + std::to_string(cnan) + " other=" + std::to_string(cother) + " total=" + std::to_string(v.size());
   if (r.kind == 'b' && r.a == 0.f && n1 != 0) return "FAIL p=0 produced a one";
   if (r.kind == 'b' && r.a == 1.f && n1 != v.size()) return "FAIL p=1 produced a zero";
   return "ok n=" + std::to_string(v.size()) + " ones=" + std::to_string(n1) + " at_upper=" + std::to_string(nup);
